@@ -130,10 +130,18 @@ func (c *deadlineCtx) Err() error {
 func runCliScenario(sc cliScenario, run int, res *hx.Result) []cliEvent {
 	r := &cliRun{run: run, held: map[int]p9p.Tag{}, answered: map[int]bool{}, returned: map[int]bool{}, cancels: map[int]context.CancelFunc{}}
 	r.cond = sync.NewCond(&r.mu)
-	cli, srv := gconn.Pair(0)
+	capacity := 0
+	for _, st := range sc.Steps {
+		if st.A == "stall" {
+			capacity = 16 // a stalled peer must make the client's request writes block: a pipe that holds one request
+		}
+	}
+	cli, srv := gconn.Pair(capacity)
 	sctx, scancel := context.WithCancel(context.Background())
 	defer scancel()
 	raw := p9p.NewChannel(srv, p9p.DefaultMSize)
+	var stallMu sync.Mutex
+	var stallGate chan struct{}
 	bg := context.Background()
 	// the peer's side of the handshake
 	hs := make(chan error, 1)
@@ -156,6 +164,12 @@ func runCliScenario(sc cliScenario, run int, res *hx.Result) []cliEvent {
 	heldZero, heldLast := false, false
 	go func() {
 		for {
+			stallMu.Lock()
+			g := stallGate
+			stallMu.Unlock()
+			if g != nil {
+				<-g
+			}
 			var fc p9p.Fcall
 			if err := raw.ReadFcall(bg, &fc); err != nil {
 				return
@@ -355,6 +369,19 @@ func runCliScenario(sc cliScenario, run int, res *hx.Result) []cliEvent {
 			wmu.Lock()
 			raw.WriteFcall(bg, &p9p.Fcall{Type: p9p.Rstat, Tag: tag, Message: p9p.MessageRstat{Stat: p9p.Dir{Name: "rogue"}}})
 			wmu.Unlock()
+		case "stall":
+			stallMu.Lock()
+			if stallGate == nil {
+				stallGate = make(chan struct{})
+			}
+			stallMu.Unlock()
+		case "resume":
+			stallMu.Lock()
+			if stallGate != nil {
+				close(stallGate)
+				stallGate = nil
+			}
+			stallMu.Unlock()
 		case "cancel":
 			r.mu.Lock()
 			c := r.cancels[st.I]
@@ -377,7 +404,13 @@ func runCliScenario(sc cliScenario, run int, res *hx.Result) []cliEvent {
 			r.mu.Unlock()
 		}
 	}
-	// end of scenario: an honest peer answers everything it holds or still receives; then every call must return
+	// end of scenario: an honest peer reads on and answers everything it holds or still receives; then every call must return
+	stallMu.Lock()
+	if stallGate != nil {
+		close(stallGate)
+		stallGate = nil
+	}
+	stallMu.Unlock()
 	stopAnswering := make(chan struct{})
 	if !faulted {
 		go func() {
